@@ -54,7 +54,21 @@ def entryRealRefused (_ : List String) : String :=
   let (r, _) := openSock true 1 (Net.init [.refused] [])
   showRes (fun _ => "") r ++ " ;; - ;; B1"
 
+/-- `realtcp <v4|v6> <timeout_ms> <c|h> <hex|.>`: a stream whose peer closes after writing is delivered whole; a peer
+that stops writing and keeps the connection open is a read that runs into its timeout (whatever it wrote before) -/
+def entryRealTcp (args : List String) : String :=
+  match args with
+  | [_fam, _ms, mode, hx] =>
+    match (if hx == "." then some [] else parseHex hx) with
+    | some bytes =>
+      let s : Sock := ⟨0, 1, true⟩
+      let w : Net := ⟨[], [[if mode == "h" then .silence else .data bytes]], [], []⟩
+      let (r, w1) := recv s none w
+      showRes showStr r ++ " ;; - ;; B" ++ toString (blockedCount w1.log)
+    | none => "bad-case"
+  | _ => "bad-case"
+
 def realEntries : List (String × (List String → String)) :=
-  [("realudp", entryRealUdp), ("realecho", entryRealEcho), ("realrefused", entryRealRefused)]
+  [("realudp", entryRealUdp), ("realecho", entryRealEcho), ("realrefused", entryRealRefused), ("realtcp", entryRealTcp)]
 
 end Gd.Run
